@@ -48,6 +48,12 @@ def rooted(e):
             e = e.get("e") or e.get("a")
         elif k == "MethodCall" and e.get("method") in ("as_mut", "as_ref", "borrow_mut", "borrow", "deref_mut", "deref"):
             e = e["recv"]
+        elif k in ("MethodCall", "Call") and isinstance(e.get("inlined"), dict):
+            from vlib.facts import _inlined_place
+            t = _inlined_place(e["inlined"])
+            if t is None:
+                return None
+            e = t
         elif k == "Path":
             r = e.get("res", {})
             if r.get("r") == "local":
@@ -120,7 +126,10 @@ class Summ:
                 rp = rooted(n["lhs"])
                 if rp and rp[0] in roots and rp[2].startswith((".body", ".instr_flag", ".args")):
                     op = "=" if k == "Assign" else n["op"]
-                    out.add(("write", rp[2], op, self._rhs(n["rhs"], fn, roots)))
+                    rhs_ = self._rhs(n["rhs"], fn, roots)
+                    if op in ("|=", "|") and rhs_ == "Bool(true)":
+                        op = "="      # x |= true ≡ x = true
+                    out.add(("write", rp[2], op, rhs_))
             elif k in ("MethodCall", "Call"):
                 callee = n.get("inst") or n.get("callee")
                 if not callee:
